@@ -53,12 +53,18 @@ def handleTs (op : String) (args impl : List String) : Verdict :=
   | "ts.text", ["parse", f, s] =>
     match decS s with
     | some s => match parseF f s with
-      | some r => compare (okErr r) (joinT impl) fun _ => true   -- malformed/variant inputs: not the property's domain; correspondence only
+      | some r =>
+        -- Go's int64 arithmetic wraps for hour fields beyond 2 562 047 h; the model counts in unbounded integers.
+        -- Such instants are outside every property's range: not compared.
+        if (match r with | some v => decide (v < -9223372036854775808) || decide (9223372036854775807 < v) | none => false) then .unmodelled else
+        compare (okErr r) (joinT impl) fun _ => true   -- malformed/variant inputs: not the property's domain; correspondence only
       | none => .bad "ts.text parse f"
     | none => .bad "ts.text parse"
   | "ts.text", ["gen", sep, digits, s] =>
     match decS s, sep.toList, digits.toNat? with
-    | some s, [c], some d => compare (okErr (parse s c d)) (joinT impl) fun _ => true
+    | some s, [c], some d =>
+      if (match parse s c d with | some v => decide (v < -9223372036854775808) || decide (9223372036854775807 < v) | none => false) then .unmodelled else
+      compare (okErr (parse s c d)) (joinT impl) fun _ => true
     | _, _, _ => .bad "ts.text gen"
   | "ts.text", ["rt", f, t] =>
     match t.toInt? with
